@@ -19,7 +19,6 @@ import (
 	"go.opentelemetry.io/collector/component/componenttest"
 	"go.opentelemetry.io/collector/config/configretry"
 	"go.opentelemetry.io/collector/exporter/exporterhelper"
-	"go.opentelemetry.io/collector/exporter/exportertest"
 	"go.opentelemetry.io/collector/pdata/plog"
 	"go.opentelemetry.io/collector/verifharness/sig"
 	"go.opentelemetry.io/collector/verifharness/vt"
@@ -206,7 +205,7 @@ func newWorld(cfg Cfg) (*world, *vt.Finding) {
 	if err := q.Validate(); err != nil {
 		return nil, vt.Failf("harness/config", "generated config rejected: %v", err)
 	}
-	set := exportertest.NewNopSettings(xh.Type)
+	set := xh.NopSettings()
 	set.TelemetrySettings = w.tel.NewTelemetrySettings()
 	r := configretry.NewDefaultBackOffConfig()
 	r.Enabled = false
